@@ -396,13 +396,22 @@ pub fn sim_files_spec(case: &Case, paths: &[String], datas: &[Vec<u8>], plans: &
 /// input is named in a diagnostic is not the subject of any property.
 pub fn strip_paths(text: &[u8], paths: &[String]) -> Vec<u8> {
     let s = strip_paths_exact(text, paths);
-    if paths.iter().all(|p| p.len() <= 255) {
+    if !s.windows(6).any(|w| w == b"error:") {
         return s;
     }
+    // every diagnostic ("error:" up to the end of its line; with an empty row separator it
+    // need not start a line) whose location does not begin with the line number
     let mut out = Vec::with_capacity(s.len());
-    for line in s.split_inclusive(|b| *b == b'\n') {
-        let mut l = line.to_vec();
-        if l.starts_with(b"error:") {
+    let mut i = 0;
+    while i < s.len() {
+        if !s[i..].starts_with(b"error:") {
+            out.push(s[i]);
+            i += 1;
+            continue;
+        }
+        let end = s[i..].iter().position(|b| *b == b'\n').map_or(s.len(), |p| i + p);
+        let mut l = s[i..end].to_vec();
+        if !l.get(6).map_or(true, u8::is_ascii_digit) {
             'paths: for p in paths {
                 let pb = p.as_bytes();
                 for n in (6..pb.len()).rev() {
@@ -410,7 +419,7 @@ pub fn strip_paths(text: &[u8], paths: &[String]) -> Vec<u8> {
                     needle.push(b':');
                     if let Some(at) = l.windows(needle.len()).position(|w| w == needle.as_slice()) {
                         let mut from = at;
-                        while from > 6 && (l[from - 1] == b'.' || l[from - 3..from] == *"…".as_bytes()) {
+                        while from > 6 && (l[from - 1] == b'.' || (from >= 9 && l[from - 3..from] == *"…".as_bytes())) {
                             from -= if l[from - 1] == b'.' { 1 } else { 3 };
                         }
                         l.drain(from..at + needle.len());
@@ -420,6 +429,7 @@ pub fn strip_paths(text: &[u8], paths: &[String]) -> Vec<u8> {
             }
         }
         out.extend_from_slice(&l);
+        i = end;
     }
     out
 }
